@@ -118,6 +118,7 @@ def replay_body(op: str, shape: str, u1c: str, u2c: str, n: int, kinds: Dict[str
     if op == "pow":
         L += [f"a, s, n = {lit('a')}, {lit('s')}, {n}",
               "expr = lambda: Measurement(a * U1, s) ** n",
+              "plain_expr = lambda: (a * U1) ** n",
               "sigma = abs(n * float(a) ** (n - 1) * float(s)) if n != 0 else 0.0",
               "defined = not (n < 0 and a == 0)"]
     else:
@@ -127,6 +128,7 @@ def replay_body(op: str, shape: str, u1c: str, u2c: str, n: int, kinds: Dict[str
         y = mk[shape[1]].format(m="b", u="U2", s="t")
         pyop = {"add": "+", "sub": "-", "mul": "*", "div": "/"}[op]
         L += [f"expr = lambda: {x} {pyop} {y}",
+              f"plain_expr = lambda: (a * U1) {pyop} (b * U2)",
               f"s_ = float(s) if {shape[0] == 'M'!r} else 0.0",
               f"t_ = float(t) if {shape[1] == 'M'!r} else 0.0",
               "rho = float((1 * U2).in_unit(U1).magnitude) if U1.dimension is U2.dimension else 1.0"]
@@ -145,8 +147,13 @@ def replay_body(op: str, shape: str, u1c: str, u2c: str, n: int, kinds: Dict[str
         "    if defined:",
         "        print('REPRODUCED: raised', type(e).__name__, e); sys.exit(1)",
         "    print('operation undefined, exception acceptable'); sys.exit(0)",
-        "u = float(r.uncertainty.magnitude)",
-        "print('uncertainty', u, 'first-order propagation', sigma)",
+        # sigma is stated in the unit the plain operation returns; the measurement may come back in
+        # another unit of the same quantity (a folded prefix, the other operand's unit)
+        "plain = plain_expr()",
+        "ru = r.measurand.unit",
+        "k = 1.0 if ru is plain.unit else float((1 * ru).in_unit(plain.unit).magnitude)",
+        "u = float(r.uncertainty.magnitude) * k",
+        "print('result', r, ' uncertainty in', plain.unit, ':', u, ' first-order propagation', sigma)",
         "if u < 0 or abs(u - sigma) > 1e-6 * max(abs(sigma), 1e-300) + 1e-12:",
         "    print('REPRODUCED: uncertainty', u, 'expected', sigma); sys.exit(1)",
         "sys.exit(0)",
